@@ -39,22 +39,25 @@ Mnemonic(e, l) == Sentence(Indices(e), l)
 
 ------------------------------------------------------------------------------
 \* Reading a mnemonic
-RECURSIVE SplitBy(_,_,_,_)          \* split s at every unit satisfying IsSep; keeps empty pieces
-SplitBy(s, IsSep(_), cur, acc) ==
-    IF s = <<>> THEN Append(acc, cur)
-    ELSE IF IsSep(Head(s)) THEN SplitBy(Tail(s), IsSep, <<>>, Append(acc, cur))
-    ELSE SplitBy(Tail(s), IsSep, Append(cur, Head(s)), acc)
+\* split s at every unit satisfying IsSep, keeping empty pieces: with the
+\* separator positions p_1 < ... < p_k the pieces are s[p_(j-1)+1 .. p_j - 1]
+SplitBy(s, IsSep(_)) ==
+    LET P == SetToSortSeq({i \in 1..Len(s) : IsSep(s[i])}, LAMBDA a, b : a < b)
+        k == Len(P)
+        bound(j) == IF j = 0 THEN 0 ELSE IF j = k + 1 THEN Len(s) + 1 ELSE P[j]
+    IN [j \in 1..(k + 1) |-> SubSeq(s, bound(j - 1) + 1, bound(j) - 1)]
 IsSpace(u) == u = 32
-SplitOnSpace(s) == SplitBy(s, IsSpace, <<>>, <<>>)
+SplitOnSpace(s) == SplitBy(s, IsSpace)
 \* whitespace-separated tokens: maximal runs of non-White_Space units
-Tokens(s) == SelectSeq(SplitBy(s, IsWhiteSpace, <<>>, <<>>), LAMBDA t : t # <<>>)
+Tokens(s) == SelectSeq(SplitBy(s, IsWhiteSpace), LAMBDA t : t # <<>>)
 
 AllKnown(toks, l) == \A i \in 1..Len(toks) : WordIndex(l, toks[i]) >= 0
 IndexBits(toks, l) == FlattenSeq([i \in 1..Len(toks) |-> Bits11(WordIndex(l, toks[i]))])
 \* the standard decoder: word -> index, concatenate, drop the checksum bits
-EntropyOfTokens(toks, l) == LET cs == Len(toks) \div 3 IN BitsToBytes(SubSeq(IndexBits(toks, l), 1, 32 * cs))
-ChecksumOfTokens(toks, l) == LET cs == Len(toks) \div 3 IN SubSeq(IndexBits(toks, l), 32 * cs + 1, 33 * cs)
-ChecksumOK(toks, l) == ChecksumOfTokens(toks, l) = Checksum(EntropyOfTokens(toks, l))
+EntropyOfBits(bits)  == BitsToBytes(SubSeq(bits, 1, 32 * (Len(bits) \div 33)))
+ChecksumOfBits(bits) == SubSeq(bits, 32 * (Len(bits) \div 33) + 1, Len(bits))
+EntropyOfTokens(toks, l) == EntropyOfBits(IndexBits(toks, l))
+ChecksumOK(toks, l) == LET bits == IndexBits(toks, l) IN ChecksumOfBits(bits) = Checksum(EntropyOfBits(bits))
 
 \* decoding of a sentence as produced by the generator (either separator)
 Entropy(sentence, l) == EntropyOfTokens(Tokens(sentence), l)
@@ -66,10 +69,10 @@ WellFormed(units, l) == TokensWellFormed(Tokens(NFKD(units)), l)
 
 \* Canonical spelling: the NFKD form is non-empty, whitespace-free tokens
 \* separated by exactly one U+0020
-CanonicalForm(units) == LET toks == SplitOnSpace(NFKD(units)) IN
-    \A i \in 1..Len(toks) : toks[i] # <<>> /\ \A k \in 1..Len(toks[i]) : ~IsWhiteSpace(toks[i][k])
+CanonicalToks(toks) == \A i \in 1..Len(toks) : toks[i] # <<>> /\ \A k \in 1..Len(toks[i]) : ~IsWhiteSpace(toks[i][k])
+CanonicalForm(units) == CanonicalToks(SplitOnSpace(NFKD(units)))
 \* C02: what must be accepted
-Canonical(units, l) == CanonicalForm(units) /\ TokensWellFormed(SplitOnSpace(NFKD(units)), l)
+Canonical(units, l) == LET toks == SplitOnSpace(NFKD(units)) IN CanonicalToks(toks) /\ TokensWellFormed(toks, l)
 
 \* C15: the classes of defect of a sentence in canonical form
 Defects(units, l) ==
